@@ -1,6 +1,6 @@
 (** Glob patterns as the PEG of brush-parser/src/pattern.rs sees them. *)
 From BV Require Import Base.Prelude.
-From BV Require Export gen.RegexTables.
+From BV Require Export gen.C08RegexTables.
 
 (** A bracket member as [single_char_bracket_member] reads it: [\c], the char '[', or any raw char
     other than ']'. *)
